@@ -7,7 +7,7 @@
     seek on the merged stream answers like the point read [get]. *)
 From Coq Require Import List Arith NArith Bool Lia Sorting.Sorted Init.Byte.
 From NoKV Require Import Base.Bytes Base.Num Model.Keys Model.Lsm Spec.MvccSpec Proofs.LsmOrder Spec.LsmSpec
-     Proofs.LsmRead Proofs.LsmGet Proofs.LsmMain Proofs.LsmInv Proofs.LsmPreserve Proofs.LsmCompact
+     Proofs.LsmRead Proofs.LsmGet Proofs.LsmMain Proofs.LsmInv Proofs.LsmPreserve Proofs.LsmCompact Spec.LsmInvB
      Model.LsmIter Spec.IterSpec.
 Import ListNotations.
 Local Open Scope N_scope.
@@ -625,7 +625,7 @@ Proof.
       specialize (Hf x (or_introl eq_refl)). unfold rlt, rcmp in Hf. apply kcmp_lt in Hf as [Hf|[_ Hf]].
       - rewrite E, bytes_cmp_refl in Hf. discriminate.
       - unfold since_ok in *. destruct (0 <? o_since o); [|reflexivity]. cbn [andb negb] in *.
-        apply negb_true_iff, N.leb_gt in Hsx. apply negb_true_iff, N.leb_gt. lia. }
+        apply negb_true_iff, N.leb_gt in Hsx. apply negb_true_iff, N.leb_gt. clear - Hsx Hf. lia. }
     specialize (Hi Hkp Hsp'). rewrite E, Hux in Hi. subst last.
     assert (nonempty u = true) by (destruct u; [contradiction | reflexivity]).
     rewrite H, bytes_eqb_refl in Elk. discriminate. }
@@ -885,3 +885,863 @@ Proof.
     unfold good, keyfilt in Hg. unfold mk_item. destruct (split_base (r_key x)) as [cf u]. cbn [i_cf].
     destruct (cf =? cf_default) eqn:E; [now apply N.eqb_eq in E | discriminate].
 Qed.
+
+(** * Values listed by a scan are what a point read of the snapshot returns *)
+Lemma spec_scan_get now ws readTs so i :
+  so_rev so = false -> so_all so = false ->
+  In i (spec_scan now ws [] readTs so) -> spec_get now ws [] readTs (s_key i) = Some (s_val i).
+Proof.
+  intros Hr Ha Hi. rewrite (spec_scan_chosen now ws readTs so Hr Ha) in Hi.
+  apply in_map_iff in Hi as (x & <- & Hx). unfold chosen_spec in Hx. apply in_flat_map in Hx as (u & _ & Hx).
+  destruct (latest_at ws (sbase u) readTs) as [z|] eqn:E; [|contradiction].
+  destruct (live now z && ver_ok so (r_ver z)) eqn:El; [|contradiction]. destruct Hx as [<-|[]].
+  apply andb_true_iff in El as [El _]. destruct (latest_at_key _ _ _ _ E) as [Hk _].
+  unfold to_item. cbn [s_key s_val]. rewrite Hk. unfold sbase at 1. rewrite split_base_enc0. cbn [snd].
+  unfold spec_get, view, view_at. rewrite N.eqb_refl. cbn [pending_of find]. now rewrite E, El.
+Qed.
+
+Theorem txn_scan_fwd_get now s ws readTs o i :
+  iter_inv s -> content_ok s ws -> seq_functional ws -> (forall w, In w ws -> wf_key w = true) ->
+  o_rev o = false -> o_all o = false ->
+  In i (txn_list current now s readTs [] o ARewind) ->
+  spec_get now ws [] readTs (i_key i) = Some (i_val i).
+Proof.
+  intros Hi Hc Hf Hw Hr Ha Hin.
+  destruct (txn_scan_fwd now s ws readTs o Hi Hc Hf Hw Hr Ha) as [Heq _].
+  apply (spec_scan_get now ws readTs (sopts_of o None) (item_sitem i) Hr Ha). rewrite <- Heq. now apply in_map.
+Qed.
+
+(** The oracle decides the specification. *)
+Lemma sitem_eqb_eq a b : sitem_eqb a b = true <-> a = b.
+Proof.
+  unfold sitem_eqb. rewrite !andb_true_iff, !bytes_eqb_eq, N.eqb_eq. destruct a, b; cbn. split.
+  - intros [[-> ->] ->]. reflexivity.
+  - intro H. injection H as -> -> ->. auto.
+Qed.
+Lemma sitems_eqb_eq a : forall b, sitems_eqb a b = true <-> a = b.
+Proof.
+  induction a as [|x a IH]; intros [|y b]; cbn [sitems_eqb]; try (split; [discriminate | discriminate]); [tauto|].
+  rewrite andb_true_iff, sitem_eqb_eq, IH. split; [intros [-> ->]; reflexivity | intro H; injection H; auto].
+Qed.
+Theorem scan_ok_b_spec now ws pw readTs o l : scan_ok_b now ws pw readTs o l = true <-> is_scan now ws pw readTs o l.
+Proof. apply sitems_eqb_eq. Qed.
+
+(** * DB.NewIterator outside the class of finding C06-F10 *)
+
+(** The merged stream holds default-column-family records only, one per key. *)
+Fixpoint no_repeat (l : list rec) : bool :=
+  match l with
+  | x :: ((y :: _) as l') => negb (bytes_eqb (r_key x) (r_key y)) && no_repeat l'
+  | _ => true
+  end.
+Definition simple_stream (l : list rec) : bool :=
+  forallb (fun r => fst (split_base (r_key r)) =? cf_default) l && no_repeat l.
+
+Definition topts_of_d (o : dopts) : topts :=
+  {| o_rev := negb (d_asc o); o_all := false; o_keyonly := d_keyonly o; o_pik := false; o_prefix := []; o_since := 0;
+     o_lower := d_lower o; o_upper := d_upper o |}.
+
+Lemma filter_nil {A} (f : A -> bool) l : (forall y, In y l -> f y = false) -> filter f l = [].
+Proof.
+  induction l as [|x l IH]; intro H; cbn [filter]; [reflexivity|].
+  rewrite (H x (or_introl eq_refl)). apply IH. intros y Hy. apply H. now right.
+Qed.
+
+Lemma filter_all {A} (f : A -> bool) l : (forall y, In y l -> f y = true) -> filter f l = l.
+Proof.
+  induction l as [|x l IH]; intro H; cbn [filter]; [reflexivity|].
+  rewrite (H x (or_introl eq_refl)). f_equal. apply IH. intros y Hy. apply H. now right.
+Qed.
+
+Lemma pick_filter g : forall l prev,
+  same_key prev (hd {| r_key := []; r_ver := 0; r_val := []; r_meta := 0; r_exp := 0; r_seq := 0 |} l) = false \/ l = [] ->
+  no_repeat l = true -> pick g prev l = filter g l.
+Proof.
+  induction l as [|x l IH]; intros prev Hp Hn; [reflexivity|].
+  cbn [pick filter]. destruct Hp as [Hp|Hp]; [|discriminate]. cbn [hd] in Hp. rewrite Hp. cbn [negb andb].
+  assert (Hrest : pick g (Some x) l = filter g l).
+  { apply IH.
+    - destruct l as [|y l']; [now right|]. left. cbn [hd same_key]. cbn [no_repeat] in Hn.
+      apply andb_true_iff in Hn as [Hn _]. now apply negb_true_iff in Hn.
+    - destruct l as [|y l']; [reflexivity|]. cbn [no_repeat] in Hn. now apply andb_true_iff in Hn as [_ Hn]. }
+  rewrite Hrest. destruct (g x); reflexivity.
+Qed.
+
+Lemma db_run_filter now od : d_asc od = true ->
+  forall l, sorted l -> Forall (fun x => wf_key x = true) l ->
+  Forall (fun r => fst (split_base (r_key r)) = cf_default) l ->
+  db_run current now od l = map mk_item (filter (good now (topts_of_d od)) l).
+Proof.
+  intros Hasc. induction l as [|x l IH]; intros Hs Hw Hc; [reflexivity|].
+  inversion Hw as [|? ? Hwx Hwl]; subst. inversion Hc as [|? ? Hcx Hcl]; subst.
+  pose proof (sorted_cons_inv _ _ Hs) as [Hsl Hf].
+  destruct (wf_key_enc x Hwx) as (cf & u & Hsp & Hk & _ & _). rewrite Hsp in Hcx. cbn [fst] in Hcx. subst cf.
+  cbn [db_run filter]. rewrite Hsp. cbn [snd]. rewrite Hasc.
+  assert (Hg : good now (topts_of_d od) x =
+               negb (nonempty (d_lower od) && bytes_ltb u (d_lower od))
+               && negb (nonempty (d_upper od) && bytes_leb (d_upper od) u) && negb (deadb now x)).
+  { unfold good, keyfilt, since_ok. rewrite Hsp. cbn [topts_of_d o_lower o_upper o_prefix o_since o_pik nonempty andb negb].
+    change (cf_default =? cf_default) with true. change (0 <? 0) with false. cbn [andb negb]. now rewrite !andb_true_r. }
+  rewrite Hg.
+  destruct (nonempty (d_lower od) && bytes_ltb u (d_lower od)) eqn:Elo; cbn [negb andb]; [now apply IH|].
+  destruct (nonempty (d_upper od) && bytes_leb (d_upper od) u) eqn:Eup; cbn [negb andb].
+  { rewrite filter_nil; [reflexivity|]. intros y Hy.
+    rewrite Forall_forall in Hwl, Hcl. destruct (wf_key_enc y (Hwl y Hy)) as (cfy & uy & Hspy & Hky & _ & _).
+    pose proof (Hcl y Hy) as Hcy. rewrite Hspy in Hcy. cbn [fst] in Hcy. subst cfy.
+    unfold good, keyfilt. rewrite Hspy. cbn [topts_of_d o_lower o_upper]. apply andb_true_iff in Eup as [Hne Hle]. rewrite Hne.
+    assert (Hxy : bytes_leb u uy = true).
+    { pose proof (sorted_head_le x l y Hs (or_intror Hy)) as H. rewrite Hk, Hky in H. unfold bytes_leb in *. now rewrite enc0_cmp in H. }
+    rewrite (bytes_leb_trans _ _ _ Hle Hxy). cbn [negb andb]. now rewrite !andb_false_r. }
+  unfold db_dead. cbn [current fix_db_dead]. destruct (deadb now x); cbn [negb map]; [now apply IH|].
+  f_equal. now apply IH.
+Qed.
+
+Definition sopts_of_d (o : dopts) (t : option bytes) : sopts := sopts_of (topts_of_d o) t.
+
+Theorem db_scan_fwd_partial now s ws od :
+  iter_inv s -> content_ok s ws -> seq_functional ws ->
+  (forall w, In w ws -> wf_key w = true /\ r_ver w <= max_u64) ->
+  simple_stream (fstream s) = true -> d_asc od = true ->
+  map item_sitem (db_list current now s od ARewind) = spec_scan now ws [] max_u64 (sopts_of_d od None).
+Proof.
+  intros Hi Hc Hf Hw Hsim Hasc.
+  assert (Hw1 : forall w, In w ws -> wf_key w = true) by (intros w Hw'; now apply Hw).
+  assert (Hr : o_rev (topts_of_d od) = false) by (cbn; now rewrite Hasc).
+  destruct (txn_scan_fwd now s ws max_u64 (topts_of_d od) Hi Hc Hf Hw1 Hr eq_refl) as [Heq _].
+  unfold sopts_of_d. rewrite <- Heq. f_equal.
+  pose proof (fstream_sorted s Hi) as HsS.
+  assert (Hws : forall y, In y (fstream s) -> In y ws) by (intros y Hy; apply (proj1 Hc); now apply fstream_sound).
+  apply andb_true_iff in Hsim as [Hcf Hnr]. rewrite forallb_forall in Hcf.
+  assert (HT : filter (visible max_u64) (fstream s) = fstream s).
+  { apply filter_all. intros y Hy. unfold visible. apply N.leb_le. now apply Hw, Hws. }
+  unfold db_list, txn_list. rewrite Hr, Hasc. cbn [negb]. rewrite db_stream_fwd, collect_trun, (txn_stream_fwd s max_u64 Hi), HT.
+  rewrite (trun_pick now max_u64 (topts_of_d od) Hr eq_refl (fstream s) [] None); auto.
+  - rewrite pick_filter; [|left; reflexivity | exact Hnr].
+    apply db_run_filter; auto.
+    + apply Forall_forall. intros y Hy. now apply Hw1, Hws.
+    + apply Forall_forall. intros y Hy. apply N.eqb_eq. now apply Hcf.
+  - apply Forall_forall. intros y Hy. now apply Hw1, Hws.
+  - apply Forall_forall. intros y Hy. now apply Hw, Hws.
+  - reflexivity.
+Qed.
+
+(** * Forward scans with AllVersions *)
+Lemma judge_fwd_all now readTs o last x cf u :
+  o_rev o = false -> o_all o = true -> r_ver x <= readTs -> split_base (r_key x) = (cf, u) ->
+  judge current now readTs o last x =
+    if negb (cf =? cf_default) then VSkip last
+    else if nonempty (o_lower o) && bytes_ltb u (o_lower o) then VSkip last
+    else if nonempty (o_upper o) && bytes_leb (o_upper o) u then VStop
+    else if (0 <? o_since o) && (r_ver x <=? o_since o) then VSkip last
+    else if nonempty (o_prefix o) && negb (if o_pik o then bytes_eqb u (o_prefix o) else is_prefix (o_prefix o) u) then VSkip last
+    else if deadb now x then VSkip last
+    else VEmit.
+Proof.
+  intros Hr Ha Hv Hs. unfold judge. rewrite Hs, Hr, Ha. cbn [current fix_txn_cf fix_tomb_last negb andb].
+  assert (readTs <? r_ver x = false) as -> by (apply N.ltb_ge; exact Hv). reflexivity.
+Qed.
+
+Lemma trun_all now readTs o :
+  o_rev o = false -> o_all o = true ->
+  forall l last, sorted l -> Forall (fun x => wf_key x = true) l -> Forall (fun x => r_ver x <= readTs) l ->
+  trun current now readTs o last l = map mk_item (filter (good now o) l).
+Proof.
+  intros Hr Ha. induction l as [|x l IH]; intros last Hs Hw Hv; [reflexivity|].
+  inversion Hw as [|? ? Hwx Hwl]; subst. inversion Hv as [|? ? Hvx Hvl]; subst.
+  pose proof (sorted_cons_inv _ _ Hs) as [Hsl _].
+  destruct (wf_key_enc x Hwx) as (cf & u & Hsp & Hk & _ & _).
+  cbn [trun filter]. rewrite (judge_fwd_all now readTs o last x cf u Hr Ha Hvx Hsp).
+  assert (Hg : good now o x =
+               (cf =? cf_default)
+               && negb (nonempty (o_lower o) && bytes_ltb u (o_lower o))
+               && negb (nonempty (o_upper o) && bytes_leb (o_upper o) u)
+               && negb (nonempty (o_prefix o) && negb (if o_pik o then bytes_eqb u (o_prefix o) else is_prefix (o_prefix o) u))
+               && negb ((0 <? o_since o) && (r_ver x <=? o_since o)) && negb (deadb now x))
+    by (unfold good, keyfilt, since_ok; now rewrite Hsp).
+  rewrite Hg.
+  destruct (cf =? cf_default) eqn:Ecf; cbn [negb andb]; [|now apply IH].
+  apply N.eqb_eq in Ecf. subst cf.
+  destruct (nonempty (o_lower o) && bytes_ltb u (o_lower o)) eqn:Elo; cbn [negb andb]; [now apply IH|].
+  destruct (nonempty (o_upper o) && bytes_leb (o_upper o) u) eqn:Eup; cbn [negb andb].
+  { rewrite filter_nil; [reflexivity|]. intros y Hy.
+    rewrite Forall_forall in Hwl. destruct (wf_key_enc y (Hwl y Hy)) as (cfy & uy & Hspy & Hky & _ & _).
+    unfold good, keyfilt. rewrite Hspy. destruct (cfy =? cf_default) eqn:Ey; [|reflexivity].
+    apply N.eqb_eq in Ey. subst cfy. apply andb_true_iff in Eup as [Hne Hle]. rewrite Hne.
+    assert (Hxy : bytes_leb u uy = true).
+    { pose proof (sorted_head_le x l y Hs (or_intror Hy)) as H. rewrite Hk, Hky in H. unfold bytes_leb in *. now rewrite enc0_cmp in H. }
+    rewrite (bytes_leb_trans _ _ _ Hle Hxy). cbn [negb andb]. now rewrite !andb_false_r. }
+  destruct ((0 <? o_since o) && (r_ver x <=? o_since o)) eqn:Esi.
+  { rewrite andb_false_r. cbn [negb andb]. now apply IH. }
+  destruct (nonempty (o_prefix o) && negb (if o_pik o then bytes_eqb u (o_prefix o) else is_prefix (o_prefix o) u)) eqn:Epf;
+    cbn [negb andb]; [now apply IH|].
+  destruct (deadb now x); cbn [negb map]; [now apply IH|]. f_equal. now apply IH.
+Qed.
+
+(** versions, descending *)
+Definition vgt (a b : N) : Prop := b < a.
+Lemma ins_ver_in v l x : In x (ins_ver v l) <-> x = v \/ In x l.
+Proof.
+  induction l as [|y l IH]; cbn [ins_ver]; [cbn; intuition|].
+  destruct (y <? v); [cbn [In]; intuition|]. destruct (y =? v) eqn:E.
+  - apply N.eqb_eq in E. subst. cbn [In]. intuition.
+  - cbn [In]. rewrite IH. intuition.
+Qed.
+Lemma ins_ver_sorted v l : StronglySorted vgt l -> StronglySorted vgt (ins_ver v l).
+Proof.
+  induction l as [|y l IH]; intro H; cbn [ins_ver]; [repeat constructor|].
+  inversion H as [|? ? Hs Hf]; subst. destruct (y <? v) eqn:E1.
+  - apply N.ltb_lt in E1. constructor; [exact H|]. constructor; [exact E1|].
+    eapply Forall_impl; [|exact Hf]. unfold vgt. intros; lia.
+  - destruct (y =? v) eqn:E2; [exact H|]. apply N.ltb_ge in E1. apply N.eqb_neq in E2.
+    constructor; [now apply IH|]. apply Forall_forall. intros a Ha. apply ins_ver_in in Ha as [->|Ha].
+    + unfold vgt. lia.
+    + rewrite Forall_forall in Hf. auto.
+Qed.
+Lemma vers_in l x : In x (fold_right ins_ver [] l) <-> In x l.
+Proof. induction l as [|v l IH]; cbn [fold_right In]; [tauto|]. rewrite ins_ver_in, IH. intuition. Qed.
+Lemma vers_sorted l : StronglySorted vgt (fold_right ins_ver [] l).
+Proof. induction l as [|v l IH]; cbn [fold_right]; [constructor|]. now apply ins_ver_sorted. Qed.
+
+Lemma versions_of_in ws readTs bk v :
+  In v (versions_of ws [] readTs bk) <-> exists w, In w ws /\ r_key w = bk /\ r_ver w = v /\ v <= readTs.
+Proof.
+  unfold versions_of. cbn [pending_of find]. rewrite app_nil_r, vers_in, in_map_iff. split.
+  - intros (w & Hv & Hw). apply filter_In in Hw as [Hw Hc]. apply andb_true_iff in Hc as [Hk Hl].
+    apply bytes_eqb_eq in Hk. apply N.leb_le in Hl. exists w. subst. auto.
+  - intros (w & Hw & Hk & Hv & Hl). exists w. split; [exact Hv|]. apply filter_In. split; [exact Hw|].
+    apply andb_true_iff. split; [now apply bytes_eqb_eq | apply N.leb_le; lia].
+Qed.
+
+Lemma opt_map_sorted (f : N -> option rec) bk vs :
+  StronglySorted vgt vs -> (forall v x, In v vs -> f v = Some x -> r_key x = bk /\ r_ver x = v) ->
+  sorted (opt_list (map f vs)).
+Proof.
+  intros Hs. induction Hs as [|v vs Hs IH Hall]; intro Hf; cbn [map opt_list]; [constructor|].
+  assert (IH' : sorted (opt_list (map f vs))) by (apply IH; intros v' x Hv'; apply Hf; now right).
+  destruct (f v) as [x|] eqn:E; [|exact IH']. constructor; [exact IH'|].
+  apply Forall_forall. intros y Hy. apply opt_list_in, in_map_iff in Hy as (v' & E' & Hv').
+  rewrite Forall_forall in Hall. specialize (Hall v' Hv').
+  destruct (Hf _ _ (or_introl eq_refl) E) as [K1 V1]. destruct (Hf _ _ (or_intror Hv') E') as [K2 V2].
+  unfold rlt, rcmp. apply kcmp_lt. right. split; [congruence|]. unfold vgt in Hall. lia.
+Qed.
+
+Lemma flat_map_keys_sorted' (f : bytes -> list rec) ks :
+  StronglySorted blt ks ->
+  (forall u x, In x (f u) -> r_key x = enc_cf_key 0 u) ->
+  (forall u, sorted (f u)) ->
+  sorted (flat_map f ks).
+Proof.
+  intros Hs Hk H1. induction Hs as [|u ks Hs IH Hf]; cbn [flat_map]; [constructor|].
+  apply ssorted_app; [apply H1 | exact IH|].
+  intros a b Ha Hb. apply in_flat_map in Hb as (u' & Hu' & Hb). rewrite Forall_forall in Hf.
+  unfold rlt, rcmp. apply kcmp_lt. left. rewrite (Hk _ _ Ha), (Hk _ _ Hb), enc0_cmp. now apply Hf.
+Qed.
+
+Definition all_pick (now : N) (ws : list rec) (so : sopts) (bk : bytes) (v : N) : option rec :=
+  match latest_at ws bk v with
+  | Some x => if live now x && ver_ok so (r_ver x) then Some x else None
+  | None => None
+  end.
+
+Definition chosen_all (now : N) (ws : list rec) (readTs : N) (so : sopts) : list rec :=
+  flat_map (fun u => opt_list (map (all_pick now ws so (sbase u)) (versions_of ws [] readTs (sbase u))))
+           (filter (key_ok so) (ukeys ws [])).
+
+Lemma spec_scan_chosen_all now ws readTs so :
+  so_rev so = false -> so_all so = true ->
+  spec_scan now ws [] readTs so = map (fun x => to_item (snd (split_base (r_key x))) x) (chosen_all now ws readTs so).
+Proof.
+  intros Hr Ha. unfold spec_scan, chosen_all. rewrite Hr.
+  induction (filter (key_ok so) (ukeys ws [])) as [|u ks IH]; cbn [flat_map map]; [reflexivity|].
+  rewrite map_app, <- IH. f_equal. unfold key_items. rewrite Ha.
+  induction (versions_of ws [] readTs (sbase u)) as [|v vs IHv]; cbn [map opt_list]; [reflexivity|].
+  assert (Hview : view_at ws [] readTs (sbase u) v = latest_at ws (sbase u) v).
+  { unfold view_at. cbn [pending_of find]. now destruct (v =? readTs). }
+  rewrite Hview. unfold all_pick. destruct (latest_at ws (sbase u) v) as [x|] eqn:E; [|exact IHv].
+  destruct (live now x && ver_ok so (r_ver x)); [|exact IHv]. cbn [map]. rewrite IHv. f_equal.
+  destruct (latest_at_key _ _ _ _ E) as [Hk _]. rewrite Hk. unfold sbase. rewrite split_base_enc0. reflexivity.
+Qed.
+
+Lemma latest_at_exact ws bk v x w :
+  latest_at ws bk v = Some x -> In w ws -> r_key w = bk -> r_ver w = v -> r_ver x = v.
+Proof.
+  intros E Hw Hk Hv. pose proof (latest_at_is_latest ws bk v) as Hl. rewrite E in Hl. cbn [is_latest] in Hl.
+  destruct Hl as (_ & [_ Hle] & Hmax). assert (Hc : is_cand bk v w) by (split; [exact Hk | lia]).
+  destruct (Hmax w Hw Hc) as [H|[H _]]; lia.
+Qed.
+
+Theorem txn_scan_fwd_all now s ws readTs o :
+  iter_inv s -> content_ok s ws -> seq_functional ws -> (forall w, In w ws -> wf_key w = true) ->
+  o_rev o = false -> o_all o = true ->
+  map item_sitem (txn_list current now s readTs [] o ARewind) = spec_scan now ws [] readTs (sopts_of o None).
+Proof.
+  intros Hi Hc Hf Hw Hr Ha.
+  assert (Hf' : seq_functional (all_recs (tiers_of s))).
+  { intros a b Ha' Hb'. apply Hf; now apply (proj1 Hc). }
+  assert (Hlat : forall k v, latest_at ws k v = src_search k v (fstream s)).
+  { intros k v. rewrite (fstream_get s k v Hi Hf'). symmetry. apply get_latest; auto; apply Hi. }
+  pose proof (fstream_sorted s Hi) as HsS.
+  set (T := filter (visible readTs) (fstream s)).
+  assert (HsT : sorted T) by now apply sorted_filter.
+  assert (HTin : forall y, In y T <-> In y (fstream s) /\ r_ver y <= readTs).
+  { intro y. unfold T. rewrite filter_In. unfold visible. now rewrite N.leb_le. }
+  assert (HSws : forall y, In y (fstream s) -> In y ws).
+  { intros y Hy. apply (proj1 Hc). now apply fstream_sound. }
+  assert (Hlist : txn_list current now s readTs [] o ARewind = map mk_item (filter (good now o) T)).
+  { unfold txn_list. rewrite Hr, collect_trun, (txn_stream_fwd s readTs Hi). fold T.
+    apply trun_all; auto.
+    - apply Forall_forall. intros y Hy. apply Hw, HSws. now apply HTin in Hy as [Hy _].
+    - apply Forall_forall. intros y Hy. now apply HTin in Hy as [_ Hy]. }
+  assert (Hsame : filter (good now o) T = chosen_all now ws readTs (sopts_of o None)).
+  { apply sorted_ext.
+    - now apply sorted_filter.
+    - unfold chosen_all. apply flat_map_keys_sorted'.
+      + apply ssorted_filter, key_set_sorted.
+      + intros u x Hx. apply opt_list_in, in_map_iff in Hx as (v & E & _). unfold all_pick in E.
+        destruct (latest_at ws (sbase u) v) as [z|] eqn:El; [|discriminate].
+        destruct (live now z && ver_ok (sopts_of o None) (r_ver z)); [|discriminate]. injection E as <-.
+        now destruct (latest_at_key _ _ _ _ El).
+      + intro u. apply (opt_map_sorted _ (sbase u)); [apply vers_sorted|].
+        intros v x Hv E. unfold all_pick in E.
+        destruct (latest_at ws (sbase u) v) as [z|] eqn:El; [|discriminate].
+        destruct (live now z && ver_ok (sopts_of o None) (r_ver z)); [|discriminate]. injection E as <-.
+        destruct (latest_at_key _ _ _ _ El) as [Hk _]. split; [exact Hk|].
+        apply versions_of_in in Hv as (w & Hw' & Hwk & Hwv & _). eapply latest_at_exact; eauto.
+    - intro x. unfold chosen_all. rewrite filter_In, in_flat_map. split.
+      + intros (Hin & Hg). apply HTin in Hin as [HinS Hv].
+        pose proof (Hw x (HSws x HinS)) as Hwx. destruct (wf_key_enc x Hwx) as (cf & u & Hsp & Hk & _ & _).
+        unfold good in Hg. apply andb_true_iff in Hg as [Hg Hlive]. apply andb_true_iff in Hg as [Hkf Hsi].
+        assert (cf = 0) as ->.
+        { unfold keyfilt in Hkf. rewrite Hsp in Hkf. destruct (cf =? cf_default) eqn:E; [now apply N.eqb_eq in E | discriminate]. }
+        exists u. split.
+        * apply filter_In. split; [apply ukeys_in; exists x; split; [now apply HSws|] | now rewrite <- (key_ok_filt o x u Hk Hr)].
+          unfold default_ukey. unfold split_base in Hsp. destruct (decode_key_cf (r_key x)) as [[c' u'] ok] eqn:Ed.
+          injection Hsp as -> ->. unfold wf_key in Hwx. rewrite Ed in Hwx. apply andb_true_iff in Hwx as [-> _]. reflexivity.
+        * apply opt_list_in, in_map_iff. exists (r_ver x). split.
+          -- unfold all_pick.
+             assert (El : latest_at ws (sbase u) (r_ver x) = Some x).
+             { rewrite Hlat. apply src_search_char; [exact HsS|]. split; [exact HinS|]. split; [split; [exact Hk | lia]|].
+               intros y _ [_ Hyv]. exact Hyv. }
+             now rewrite El, live_dead, Hlive, (ver_since o None x), Hsi.
+          -- apply versions_of_in. exists x. split; [now apply HSws|]. split; [exact Hk|]. split; [reflexivity | exact Hv].
+      + intros (u & Hu & Hx). apply filter_In in Hu as [_ Hko].
+        apply opt_list_in, in_map_iff in Hx as (v & E & Hv). unfold all_pick in E.
+        destruct (latest_at ws (sbase u) v) as [z|] eqn:El; [|discriminate].
+        destruct (live now z && ver_ok (sopts_of o None) (r_ver z)) eqn:Elv; [|discriminate]. injection E as <-.
+        apply andb_true_iff in Elv as [Hlive Hvo].
+        rewrite Hlat in El. apply (src_search_char _ _ _ _ HsS) in El as (HinS & [Hk Hzv] & _).
+        apply versions_of_in in Hv as (_ & _ & _ & _ & Hvr).
+        split; [apply HTin; split; [exact HinS | lia]|].
+        unfold good. now rewrite (key_ok_filt o z u Hk Hr), Hko, <- (ver_since o None z), Hvo, <- live_dead, Hlive. }
+  rewrite Hlist, Hsame, (spec_scan_chosen_all now ws readTs (sopts_of o None) Hr Ha), !map_map.
+  apply map_ext. intro x. unfold mk_item, item_sitem, to_item. destruct (split_base (r_key x)); reflexivity.
+Qed.
+
+(** * The merge iterator for an arbitrary direction *)
+Section GenericMerge.
+  Variable cmp : rec -> rec -> comparison.
+  Hypothesis cmp_eq : forall x y, cmp x y = Eq <-> r_key x = r_key y /\ r_ver x = r_ver y.
+  Hypothesis cmp_anti : forall x y, cmp y x = CompOpp (cmp x y).
+  Hypothesis cmp_trans : forall x y z, cmp x y = Lt -> cmp y z = Lt -> cmp x z = Lt.
+
+  Definition glt (a b : rec) : Prop := cmp a b = Lt.
+  Definition gsorted (l : list rec) : Prop := StronglySorted glt l.
+
+  Lemma glt_irrefl a : ~ glt a a.
+  Proof. unfold glt. intro H. assert (cmp a a = Eq) by (apply cmp_eq; auto). congruence. Qed.
+
+  Lemma g_gt_lt a b : cmp a b = Gt -> glt b a.
+  Proof. unfold glt. intro E. rewrite cmp_anti, E. reflexivity. Qed.
+
+  Lemma g_eq_lt_l a b c : cmp a b = Eq -> glt b c -> glt a c.
+  Proof.
+    unfold glt. intros E H. apply cmp_eq in E as [Ek Ev]. destruct (cmp a c) eqn:E2; [|reflexivity|].
+    - apply cmp_eq in E2 as [E2k E2v]. assert (cmp b c = Eq) by (apply cmp_eq; split; congruence). congruence.
+    - apply g_gt_lt in E2. pose proof (cmp_trans _ _ _ H E2) as H3.
+      assert (cmp b a = Eq) by (apply cmp_eq; split; congruence). unfold glt in H3. congruence.
+  Qed.
+
+  Lemma gsorted_cons_inv x l : gsorted (x :: l) -> gsorted l /\ Forall (glt x) l.
+  Proof. intro H. inversion H; subst. auto. Qed.
+
+  Lemma gsorted_unique l x y :
+    gsorted l -> In x l -> In y l -> r_key x = r_key y -> r_ver x = r_ver y -> x = y.
+  Proof.
+    induction l as [|z l IH]; intros Hs Hx Hy Hk Hv; [contradiction|].
+    apply gsorted_cons_inv in Hs as [Hs Hf]. rewrite Forall_forall in Hf.
+    destruct Hx as [->|Hx], Hy as [->|Hy]; auto.
+    - specialize (Hf _ Hy). unfold glt in Hf. assert (cmp x y = Eq) by (apply cmp_eq; auto). congruence.
+    - specialize (Hf _ Hx). unfold glt in Hf. assert (cmp y x = Eq) by (apply cmp_eq; auto). congruence.
+  Qed.
+
+  Lemma gmerge_fuel_in f : forall a b x, In x (gmerge_fuel cmp f a b) -> In x a \/ In x b.
+  Proof.
+    induction f as [|f IH]; intros a b x; cbn [gmerge_fuel]; [apply in_app_or|].
+    destruct a as [|xa a']; [now right|]. destruct b as [|yb b']; [now left|].
+    destruct (cmp xa yb); (intros [<-|H]; [cbn [In]; tauto|]); apply IH in H; cbn [In] in *; tauto.
+  Qed.
+
+  Lemma gmerge_fuel_left f : forall a b x, In x a -> In x (gmerge_fuel cmp f a b).
+  Proof.
+    induction f as [|f IH]; intros a b x Hx; cbn [gmerge_fuel]; [apply in_or_app; now left|].
+    destruct a as [|xa a']; [contradiction|]. destruct b as [|yb b']; [exact Hx|].
+    destruct (cmp xa yb); cbn [In].
+    - destruct Hx as [->|Hx]; [now left | right; now apply IH].
+    - destruct Hx as [->|Hx]; [now left | right; now apply IH].
+    - right. now apply IH.
+  Qed.
+
+  Lemma gmerge_fuel_right f : forall a b y,
+    In y b -> In y (gmerge_fuel cmp f a b) \/ exists x, In x a /\ cmp x y = Eq.
+  Proof.
+    induction f as [|f IH]; intros a b y Hy; cbn [gmerge_fuel]; [left; apply in_or_app; now right|].
+    destruct a as [|xa a']; [now left|]. destruct b as [|yb b']; [contradiction|].
+    destruct (cmp xa yb) eqn:E; cbn [In].
+    - destruct Hy as [<-|Hy]; [right; exists xa; split; [now left | exact E]|].
+      destruct (IH a' b' y Hy) as [H|(x & Hx & Ex)]; [left; now right | right; exists x; split; [now right | exact Ex]].
+    - destruct (IH a' (yb :: b') y Hy) as [H|(x & Hx & Ex)]; [left; now right | right; exists x; split; [now right | exact Ex]].
+    - destruct Hy as [<-|Hy]; [left; now left|].
+      destruct (IH (xa :: a') b' y Hy) as [H|(x & Hx & Ex)]; [left; now right | right; exists x; split; [exact Hx | exact Ex]].
+  Qed.
+
+  Lemma gmerge_fuel_sorted f : forall a b,
+    (length a + length b <= f)%nat -> gsorted a -> gsorted b -> gsorted (gmerge_fuel cmp f a b).
+  Proof.
+    induction f as [|f IH]; intros a b Hl Ha Hb; cbn [gmerge_fuel].
+    - destruct a; [|cbn in Hl; lia]. destruct b; [constructor | cbn in Hl; lia].
+    - destruct a as [|xa a']; [exact Hb|]. destruct b as [|yb b']; [exact Ha|].
+      cbn [length] in Hl. pose proof Ha as Ha0. pose proof Hb as Hb0.
+      apply gsorted_cons_inv in Ha as [Ha Hfa]. apply gsorted_cons_inv in Hb as [Hb Hfb].
+      rewrite Forall_forall in Hfa, Hfb.
+      destruct (cmp xa yb) eqn:E.
+      + constructor; [apply IH; [lia | exact Ha | exact Hb]|].
+        apply Forall_forall. intros z Hz. apply gmerge_fuel_in in Hz as [Hz|Hz]; [now apply Hfa|].
+        eapply g_eq_lt_l; [exact E | now apply Hfb].
+      + constructor; [apply IH; [cbn [length]; lia | exact Ha | exact Hb0]|].
+        apply Forall_forall. intros z Hz. apply gmerge_fuel_in in Hz as [Hz|[<-|Hz]]; [now apply Hfa | exact E|].
+        eapply cmp_trans; [exact E | now apply Hfb].
+      + apply g_gt_lt in E.
+        constructor; [apply IH; [cbn [length]; lia | exact Ha0 | exact Hb]|].
+        apply Forall_forall. intros z Hz. apply gmerge_fuel_in in Hz as [[<-|Hz]|Hz]; [exact E | | now apply Hfb].
+        eapply cmp_trans; [exact E | now apply Hfa].
+  Qed.
+
+  Lemma g_find_self x a : gsorted a -> In x a -> find (ik_eqb x) a = Some x.
+  Proof.
+    intros Hs Hx. destruct (find (ik_eqb x) a) as [y|] eqn:E.
+    - apply find_some in E as [Hy He]. apply ik_eqb_spec in He as [Hk Hv]. f_equal. now apply (gsorted_unique a).
+    - pose proof (find_none _ _ E x Hx) as H. rewrite ik_eqb_refl in H. discriminate.
+  Qed.
+
+  Lemma gmerge_char a b x :
+    gsorted a -> gsorted b ->
+    (In x (gmerge cmp a b) <-> In x a \/ (In x b /\ find (ik_eqb x) a = None)).
+  Proof.
+    intros Ha Hb. unfold gmerge. split.
+    - intro H. destruct (find (ik_eqb x) a) as [y|] eqn:E.
+      + left. apply find_some in E as [Hy He]. apply ik_eqb_spec in He as [Hk Hv].
+        assert (y = x) as <-; [|exact Hy].
+        apply (gsorted_unique (gmerge_fuel cmp (length a + length b) a b));
+          [apply gmerge_fuel_sorted; auto | now apply gmerge_fuel_left | exact H | exact Hk | exact Hv].
+      + apply gmerge_fuel_in in H as [H|H]; [now left | right; now split].
+    - intros [H|[H E]]; [now apply gmerge_fuel_left|].
+      destruct (gmerge_fuel_right (length a + length b) a b x H) as [H'|(y & Hy & He)]; [exact H'|].
+      pose proof (find_none _ _ E y Hy) as Hn. apply cmp_eq in He as [Hk Hv].
+      assert (ik_eqb x y = true) by (apply ik_eqb_spec; auto). congruence.
+  Qed.
+
+  Definition gowns (srcs : list (list rec)) (l : list rec) : Prop :=
+    gsorted l /\ forall x, In x l <-> owner x srcs = Some x.
+
+  Lemma gowns_single a : gsorted a -> gowns [a] a.
+  Proof.
+    intro Hs. split; [exact Hs|]. intro x. cbn [owner]. split.
+    - intro Hx. now rewrite (g_find_self x a Hs Hx).
+    - destruct (find (ik_eqb x) a) as [y|] eqn:E; [|discriminate]. intro H. injection H as ->.
+      now apply find_some in E as [Hy _].
+  Qed.
+
+  Lemma gowns_nil : gowns [] [].
+  Proof. split; [constructor|]. intro x. cbn. split; [intros [] | discriminate]. Qed.
+
+  Lemma gowns_merge A B la lb : gowns A la -> gowns B lb -> gowns (A ++ B) (gmerge cmp la lb).
+  Proof.
+    intros [Hsa Ha] [Hsb Hb]. split; [apply gmerge_fuel_sorted; auto|].
+    intro x. rewrite (gmerge_char la lb x Hsa Hsb), owner_app, Ha, Hb.
+    assert (Hn : find (ik_eqb x) la = None <-> owner x A = None).
+    { split.
+      - intro E. destruct (owner x A) as [y|] eqn:Eo; [|reflexivity].
+        pose proof (owner_idem _ _ _ Eo) as Hy. apply Ha in Hy.
+        destruct (owner_some _ _ _ Eo) as [_ He]. pose proof (find_none _ _ E y Hy). congruence.
+      - intro Eo. destruct (find (ik_eqb x) la) as [y|] eqn:E; [|reflexivity].
+        apply find_some in E as [Hy He]. apply Ha in Hy. rewrite <- (owner_congr x y A He), Eo in Hy. discriminate. }
+    destruct (owner x A) as [y|] eqn:Eo.
+    - split; [intros [H|[_ H]]; [exact H | apply Hn in H; discriminate] | intro H; now left].
+    - split; [intros [H|[H _]]; [discriminate | exact H] | intro H; right; split; [exact H | now apply Hn]].
+  Qed.
+
+  Lemma gmtree_fuel_owns f : forall srcs,
+    (length srcs <= f)%nat -> Forall gsorted srcs -> gowns srcs (mtree_fuel cmp f srcs).
+  Proof.
+    induction f as [|f IH]; intros srcs Hl Hs.
+    - destruct srcs; [apply gowns_nil | cbn in Hl; lia].
+    - cbn [mtree_fuel]. destruct srcs as [|a [|b [|c T]]].
+      + apply gowns_nil.
+      + inversion Hs; subst. now apply gowns_single.
+      + inversion Hs as [|? ? Ha Hs']; subst. inversion Hs' as [|? ? Hb _]; subst.
+        change [a; b] with ([a] ++ [b]). apply gowns_merge; now apply gowns_single.
+      + set (l := a :: b :: c :: T) in *.
+        assert (Hlen : (2 <= length l)%nat) by (cbn; lia).
+        destruct (div2_lt _ Hlen) as [H1 H2].
+        rewrite <- (firstn_skipn (Nat.div2 (length l)) l) at 1.
+        apply gowns_merge; apply IH.
+        * rewrite firstn_length. lia.
+        * rewrite <- (firstn_skipn (Nat.div2 (length l)) l) in Hs. now apply Forall_app in Hs as [Hs _].
+        * rewrite skipn_length. lia.
+        * rewrite <- (firstn_skipn (Nat.div2 (length l)) l) in Hs. now apply Forall_app in Hs as [_ Hs].
+  Qed.
+
+  Theorem gmtree_owns srcs : Forall gsorted srcs -> gowns srcs (mtree cmp srcs).
+  Proof. intro H. apply gmtree_fuel_owns; [lia | exact H]. Qed.
+End GenericMerge.
+
+(** * Reverse iteration: the merged stream backwards is the forward stream reversed *)
+Definition rcmp' (a b : rec) : comparison := rcmp b a.
+Lemma rcmp'_eq x y : rcmp' x y = Eq <-> r_key x = r_key y /\ r_ver x = r_ver y.
+Proof. unfold rcmp'. rewrite rcmp_eq. intuition. Qed.
+Lemma rcmp'_anti x y : rcmp' y x = CompOpp (rcmp' x y).
+Proof. unfold rcmp', rcmp. apply kcmp_antisym. Qed.
+Lemma rcmp'_trans x y z : rcmp' x y = Lt -> rcmp' y z = Lt -> rcmp' x z = Lt.
+Proof. unfold rcmp'. intros H1 H2. exact (rlt_trans _ _ _ H2 H1). Qed.
+
+Definition rsorted := gsorted rcmp'.
+
+Lemma rev_rsorted l : sorted l -> rsorted (rev l).
+Proof.
+  induction l as [|x l IH]; intro Hs; cbn [rev]; [constructor|].
+  apply sorted_cons_inv in Hs as [Hs Hf]. apply ssorted_app; [now apply IH | repeat constructor|].
+  intros a b Ha [<-|[]]. apply in_rev in Ha. rewrite Forall_forall in Hf. unfold glt, rcmp'. now apply Hf.
+Qed.
+
+Lemma filter_rev_eq {A} (f : A -> bool) l : filter f (rev l) = rev (filter f l).
+Proof.
+  induction l as [|x l IH]; [reflexivity|]. cbn [rev filter]. rewrite filter_app, IH. cbn [filter].
+  destruct (f x); cbn [rev]; [reflexivity | now rewrite app_nil_r].
+Qed.
+
+Lemma rsorted_filter f l : rsorted l -> rsorted (filter f l).
+Proof. apply ssorted_filter. Qed.
+
+Lemma find_rev_sorted x a : sorted a -> find (ik_eqb x) (rev a) = find (ik_eqb x) a.
+Proof.
+  intro Hs. destruct (find (ik_eqb x) a) as [y|] eqn:E.
+  - apply find_some in E as [Hy He]. destruct (find (ik_eqb x) (rev a)) as [z|] eqn:E2.
+    + apply find_some in E2 as [Hz Hze]. apply in_rev in Hz. f_equal.
+      apply ik_eqb_spec in He as [K1 V1]. apply ik_eqb_spec in Hze as [K2 V2].
+      apply (sorted_unique a); auto; congruence.
+    + pose proof (find_none _ _ E2 y (proj1 (in_rev a y) Hy)). congruence.
+  - destruct (find (ik_eqb x) (rev a)) as [z|] eqn:E2; [|reflexivity].
+    apply find_some in E2 as [Hz Hze]. apply in_rev in Hz.
+    pose proof (find_none _ _ E z Hz). congruence.
+Qed.
+
+Lemma owner_rev x srcs : Forall sorted srcs -> owner x (map (@rev rec) srcs) = owner x srcs.
+Proof.
+  induction 1 as [|a T Ha HT IH]; cbn [map owner]; [reflexivity|]. now rewrite (find_rev_sorted x a Ha), IH.
+Qed.
+
+Lemma txn_stream_rev s readTs :
+  iter_inv s -> txn_stream current s true readTs [] PRewind = rev (filter (visible readTs) (fstream s)).
+Proof.
+  intro Hi. unfold txn_stream. cbn [app dcmp lsm_pos].
+  assert (Hsrc : Forall sorted (lsm_sources current s)) by (apply lsm_sources_sorted, Hi).
+  set (srcs := lsm_sources current s) in *.
+  assert (Hsrc' : Forall rsorted (map (fun l => filter (visible readTs) (rev l)) srcs)).
+  { apply Forall_forall. intros l Hl. apply in_map_iff in Hl as (a & <- & Ha).
+    apply rsorted_filter, rev_rsorted. rewrite Forall_forall in Hsrc. auto. }
+  change (fun a b : rec => rcmp b a) with rcmp'.
+  destruct (gmtree_owns rcmp' rcmp'_eq rcmp'_anti rcmp'_trans _ Hsrc') as [Hs1 Hm1].
+  destruct (mtree_owns _ Hsrc) as [Hs2 Hm2].
+  apply (ssorted_ext (glt rcmp')); [apply glt_irrefl; exact rcmp'_eq | exact rcmp'_trans | exact Hs1 | |].
+  - rewrite <- filter_rev_eq. apply rsorted_filter, rev_rsorted. exact Hs2.
+  - intro x. rewrite Hm1, <- in_rev, filter_In. fold (fstream s). unfold fstream. fold srcs. rewrite Hm2.
+    replace (map (fun l => filter (visible readTs) (rev l)) srcs) with (map (filter (visible readTs)) (map (@rev rec) srcs))
+      by (rewrite map_map; reflexivity).
+    rewrite (owner_filter x (visible readTs) _ (visible_ik readTs x)), (owner_rev x srcs Hsrc).
+    destruct (visible readTs x); split; try tauto; try discriminate. intros [_ H]. discriminate.
+Qed.
+
+(** * Next* backwards *)
+Lemma judge_rev now readTs o last x cf u :
+  o_rev o = true -> r_ver x <= readTs -> split_base (r_key x) = (cf, u) ->
+  judge current now readTs o last x =
+    if negb (cf =? cf_default) then VSkip last
+    else if nonempty (o_lower o) && bytes_ltb u (o_lower o) then VStop
+    else if nonempty (o_upper o) && bytes_leb (o_upper o) u then VSkip last
+    else if (0 <? o_since o) && (r_ver x <=? o_since o) then VSkip last
+    else if nonempty (o_prefix o) && negb (if o_pik o then bytes_eqb u (o_prefix o) else is_prefix (o_prefix o) u) then VSkip last
+    else if negb (o_all o) && nonempty last && bytes_eqb last u then VSkip last
+    else if deadb now x then VSkip last
+    else VEmit.
+Proof.
+  intros Hr Hv Hs. unfold judge. rewrite Hs, Hr. cbn [current fix_txn_cf fix_tomb_last negb andb].
+  assert (readTs <? r_ver x = false) as -> by (apply N.ltb_ge; exact Hv). rewrite !andb_false_r. reflexivity.
+Qed.
+
+(** strictly descending base keys: one record per key *)
+Definition kdesc (l : list rec) : Prop := StronglySorted (fun a b => bytes_cmp (r_key b) (r_key a) = Lt) l.
+
+Definition linv (o : topts) (last : bytes) (l : list rec) : Prop :=
+  o_all o = true \/ last = [] \/ forall y, In y l -> r_key y <> enc_cf_key 0 last.
+
+Lemma trun_rev now readTs o :
+  o_rev o = true ->
+  forall l last, rsorted l -> (o_all o = true \/ kdesc l) ->
+    Forall (fun x => wf_key x = true) l -> Forall (fun x => r_ver x <= readTs) l -> linv o last l ->
+    trun current now readTs o last l = map mk_item (filter (good now o) l).
+Proof.
+  intros Hr. induction l as [|x l IH]; intros last Hs Hk Hw Hv Hi; [reflexivity|].
+  inversion Hw as [|? ? Hwx Hwl]; subst. inversion Hv as [|? ? Hvx Hvl]; subst.
+  pose proof (gsorted_cons_inv rcmp' _ _ Hs) as [Hsl Hf].
+  assert (Hk' : o_all o = true \/ kdesc l).
+  { destruct Hk as [Hk|Hk]; [now left | right]. now inversion Hk. }
+  assert (Hi' : linv o last l).
+  { destruct Hi as [Hi|[Hi|Hi]]; [now left | right; now left | right; right]. intros y Hy. apply Hi. now right. }
+  destruct (wf_key_enc x Hwx) as (cf & u & Hsp & Hkx & _ & Hu).
+  cbn [trun filter]. rewrite (judge_rev now readTs o last x cf u Hr Hvx Hsp).
+  assert (Hg : good now o x =
+               (cf =? cf_default)
+               && negb (nonempty (o_lower o) && bytes_ltb u (o_lower o))
+               && negb (nonempty (o_upper o) && bytes_leb (o_upper o) u)
+               && negb (nonempty (o_prefix o) && negb (if o_pik o then bytes_eqb u (o_prefix o) else is_prefix (o_prefix o) u))
+               && negb ((0 <? o_since o) && (r_ver x <=? o_since o)) && negb (deadb now x))
+    by (unfold good, keyfilt, since_ok; now rewrite Hsp).
+  rewrite Hg.
+  destruct (cf =? cf_default) eqn:Ecf; cbn [negb andb]; [|now apply IH].
+  apply N.eqb_eq in Ecf. subst cf.
+  destruct (nonempty (o_lower o) && bytes_ltb u (o_lower o)) eqn:Elo; cbn [negb andb].
+  { (* below the lower bound: so is everything that follows *)
+    rewrite filter_nil; [reflexivity|]. intros y Hy.
+    rewrite Forall_forall in Hwl. destruct (wf_key_enc y (Hwl y Hy)) as (cfy & uy & Hspy & Hky & _ & _).
+    unfold good, keyfilt. rewrite Hspy. destruct (cfy =? cf_default) eqn:Ey; [|reflexivity].
+    apply N.eqb_eq in Ey. subst cfy. apply andb_true_iff in Elo as [Hne Hlt]. rewrite Hne.
+    assert (Hyx : bytes_leb uy u = true).
+    { rewrite Forall_forall in Hf. specialize (Hf y Hy). unfold glt, rcmp' in Hf.
+      pose proof (rlt_key_le _ _ Hf) as H. rewrite Hkx, Hky in H. unfold bytes_leb in *. now rewrite enc0_cmp in H. }
+    rewrite (bytes_leb_ltb_trans _ _ _ Hyx Hlt). cbn [negb andb]. reflexivity. }
+  destruct (nonempty (o_upper o) && bytes_leb (o_upper o) u) eqn:Eup; cbn [negb andb]; [now apply IH|].
+  destruct ((0 <? o_since o) && (r_ver x <=? o_since o)) eqn:Esi.
+  { rewrite andb_false_r. cbn [negb andb]. now apply IH. }
+  destruct (nonempty (o_prefix o) && negb (if o_pik o then bytes_eqb u (o_prefix o) else is_prefix (o_prefix o) u)) eqn:Epf;
+    cbn [negb andb]; [now apply IH|].
+  destruct (negb (o_all o) && nonempty last && bytes_eqb last u) eqn:Elk.
+  { exfalso. apply andb_true_iff in Elk as [Elk Hlu]. apply andb_true_iff in Elk as [Hna Hne].
+    apply bytes_eqb_eq in Hlu. subst last. apply negb_true_iff in Hna.
+    destruct Hi as [Hi|[Hi|Hi]]; [congruence | subst; discriminate|]. apply (Hi x (or_introl eq_refl)). exact Hkx. }
+  destruct (deadb now x); cbn [negb map]; [now apply IH|].
+  rewrite Hsp. cbn [snd]. f_equal. apply IH; auto.
+  destruct Hk as [Hk|Hk]; [now left | right; right].
+  inversion Hk as [|? ? _ Hall]; subst. rewrite Forall_forall in Hall. intros y Hy E.
+  specialize (Hall y Hy). rewrite E, Hkx in Hall. change (enc_cf_key 0 u) with (enc_cf_key cf_default u) in Hall. rewrite bytes_cmp_refl in Hall. discriminate.
+Qed.
+
+(** * Reverse scans *)
+Definition fwd (o : topts) : topts :=
+  {| o_rev := false; o_all := o_all o; o_keyonly := o_keyonly o; o_pik := o_pik o; o_prefix := o_prefix o;
+     o_since := o_since o; o_lower := o_lower o; o_upper := o_upper o |}.
+
+Lemma good_fwd now o x : good now (fwd o) x = good now o x.
+Proof. reflexivity. Qed.
+
+Lemma spec_scan_rev now ws pw readTs o :
+  o_rev o = true ->
+  spec_scan now ws pw readTs (sopts_of o None) = rev (spec_scan now ws pw readTs (sopts_of (fwd o) None)).
+Proof. intro Hr. unfold spec_scan. cbn [sopts_of so_rev fwd o_rev]. rewrite Hr. reflexivity. Qed.
+
+Lemma rev_T_facts s ws readTs :
+  iter_inv s -> content_ok s ws -> (forall w, In w ws -> wf_key w = true) ->
+  let T := filter (visible readTs) (fstream s) in
+  sorted T /\ Forall (fun x => wf_key x = true) T /\ Forall (fun x => r_ver x <= readTs) T.
+Proof.
+  intros Hi Hc Hw T. split; [apply sorted_filter, fstream_sorted, Hi|]. split; apply Forall_forall; intros y Hy;
+    unfold T in Hy; apply filter_In in Hy as [Hy Hv].
+  - apply Hw, (proj1 Hc). now apply fstream_sound.
+  - unfold visible in Hv. now apply N.leb_le.
+Qed.
+
+Theorem txn_scan_rev_all now s ws readTs o :
+  iter_inv s -> content_ok s ws -> seq_functional ws -> (forall w, In w ws -> wf_key w = true) ->
+  o_rev o = true -> o_all o = true ->
+  map item_sitem (txn_list current now s readTs [] o ARewind) = spec_scan now ws [] readTs (sopts_of o None).
+Proof.
+  intros Hi Hc Hf Hw Hr Ha.
+  destruct (rev_T_facts s ws readTs Hi Hc Hw) as (HsT & HwT & HvT).
+  set (T := filter (visible readTs) (fstream s)) in *.
+  pose proof (txn_scan_fwd_all now s ws readTs (fwd o) Hi Hc Hf Hw eq_refl Ha) as Hfwd.
+  assert (Hl1 : txn_list current now s readTs [] (fwd o) ARewind = map mk_item (filter (good now o) T)).
+  { unfold txn_list. cbn [fwd o_rev]. rewrite collect_trun, (txn_stream_fwd s readTs Hi). fold T.
+    rewrite (trun_all now readTs (fwd o) eq_refl Ha T []); auto. }
+  assert (Hl2 : txn_list current now s readTs [] o ARewind = map mk_item (filter (good now o) (rev T))).
+  { unfold txn_list. rewrite Hr, collect_trun, (txn_stream_rev s readTs Hi). fold T.
+    apply trun_rev; auto.
+    - now apply rev_rsorted.
+    - apply Forall_rev. exact HwT.
+    - apply Forall_rev. exact HvT.
+    - now left. }
+  rewrite (spec_scan_rev now ws [] readTs o Hr), <- Hfwd, Hl1, Hl2, filter_rev_eq, !map_rev. reflexivity.
+Qed.
+
+(** Without AllVersions (finding C06-F9): correct when every key has a single visible version. *)
+Lemma no_repeat_kasc l : sorted l -> no_repeat l = true ->
+  StronglySorted (fun a b => bytes_cmp (r_key a) (r_key b) = Lt) l.
+Proof.
+  induction l as [|x l IH]; intros Hs Hn; [constructor|].
+  pose proof (sorted_cons_inv _ _ Hs) as [Hsl Hf]. rewrite Forall_forall in Hf.
+  assert (Hn' : no_repeat l = true).
+  { destruct l as [|y l']; [reflexivity|]. cbn [no_repeat] in Hn. now apply andb_true_iff in Hn as [_ Hn]. }
+  specialize (IH Hsl Hn'). constructor; [exact IH|].
+  destruct l as [|y l']; [constructor|]. cbn [no_repeat] in Hn. apply andb_true_iff in Hn as [Hxy _].
+  apply negb_true_iff, bytes_eqb_neq in Hxy.
+  assert (Hlt : bytes_cmp (r_key x) (r_key y) = Lt).
+  { pose proof (Hf y (or_introl eq_refl)) as H. unfold rlt, rcmp in H. apply kcmp_lt in H as [H|[H _]]; [exact H | contradiction]. }
+  constructor; [exact Hlt|]. inversion IH as [|? ? _ Hall]; subst.
+  eapply Forall_impl; [|exact Hall]. intros a Ha. eapply bytes_cmp_lt_trans; eauto.
+Qed.
+
+Lemma kdesc_rev l : StronglySorted (fun a b => bytes_cmp (r_key a) (r_key b) = Lt) l -> kdesc (rev l).
+Proof.
+  induction 1 as [|x l Hs IH Hf]; cbn [rev]; [constructor|].
+  apply ssorted_app; [exact IH | repeat constructor|].
+  intros a b Ha [<-|[]]. apply in_rev in Ha. rewrite Forall_forall in Hf. now apply Hf.
+Qed.
+
+Theorem txn_scan_rev_partial now s ws readTs o :
+  iter_inv s -> content_ok s ws -> seq_functional ws -> (forall w, In w ws -> wf_key w = true) ->
+  no_repeat (filter (visible readTs) (fstream s)) = true ->
+  o_rev o = true -> o_all o = false ->
+  map item_sitem (txn_list current now s readTs [] o ARewind) = spec_scan now ws [] readTs (sopts_of o None).
+Proof.
+  intros Hi Hc Hf Hw Hn Hr Ha.
+  destruct (rev_T_facts s ws readTs Hi Hc Hw) as (HsT & HwT & HvT).
+  set (T := filter (visible readTs) (fstream s)) in *.
+  destruct (txn_scan_fwd now s ws readTs (fwd o) Hi Hc Hf Hw eq_refl Ha) as [Hfwd _].
+  assert (Hl1 : txn_list current now s readTs [] (fwd o) ARewind = map mk_item (filter (good now o) T)).
+  { unfold txn_list. cbn [fwd o_rev]. rewrite collect_trun, (txn_stream_fwd s readTs Hi). fold T.
+    rewrite (trun_pick now readTs (fwd o) eq_refl Ha T [] None); auto; [|reflexivity].
+    rewrite pick_filter; [reflexivity | left; reflexivity | exact Hn]. }
+  assert (Hl2 : txn_list current now s readTs [] o ARewind = map mk_item (filter (good now o) (rev T))).
+  { unfold txn_list. rewrite Hr, collect_trun, (txn_stream_rev s readTs Hi). fold T.
+    apply trun_rev; auto.
+    - now apply rev_rsorted.
+    - right. apply kdesc_rev. now apply no_repeat_kasc.
+    - apply Forall_rev. exact HwT.
+    - apply Forall_rev. exact HvT.
+    - right. now left. }
+  rewrite (spec_scan_rev now ws [] readTs o Hr), <- Hfwd, Hl1, Hl2, filter_rev_eq, !map_rev. reflexivity.
+Qed.
+
+(** * Witnesses *)
+From Coq Require Import String.
+Definition mkr (k : string) (ver : N) (v : string) (meta seq : N) : rec :=
+  {| r_key := sbase (of_string k); r_ver := ver; r_val := of_string v; r_meta := meta; r_exp := 0; r_seq := seq |}.
+Definition mem_state (mem : list rec) (imms : list (N * list rec)) : state :=
+  {| st_mem := mem; st_memid := 9; st_imms := imms; st_l0 := []; st_lvls := []; st_maxfid := 9 |}.
+Definition plain_opts (rv allv : bool) : topts :=
+  {| o_rev := rv; o_all := allv; o_keyonly := false; o_pik := false; o_prefix := []; o_since := 0; o_lower := []; o_upper := [] |}.
+
+(** F8 (before the repair): commit a=1, b=2; commit delete b; the forward scan lists b. *)
+Definition w_f8 : list rec := [mkr "a" 1 "1" 0 1; mkr "b" 1 "2" 0 2; mkr "b" 2 "" 1 3].
+Definition s_f8 : state := mem_state [mkr "a" 1 "1" 0 1; mkr "b" 2 "" 1 3; mkr "b" 1 "2" 0 2] [].
+
+(** F3 (before the repair): Set a 1; rotate; Set a 2; rotate: two sealed memtables, same internal key. *)
+Definition w_f3 : list rec := [mkr "a" max_u64 "1" 0 1; mkr "a" max_u64 "2" 0 2].
+Definition s_f3 : state := mem_state [] [(1, [mkr "a" max_u64 "1" 0 1]); (2, [mkr "a" max_u64 "2" 0 2])].
+
+(** F9: commit a=old; commit a=new; reverse scan. *)
+Definition w_f9 : list rec := [mkr "a" 1 "old" 0 1; mkr "a" 2 "new" 0 2].
+Definition s_f9 : state := mem_state [mkr "a" 2 "new" 0 2; mkr "a" 1 "old" 0 1] [].
+
+Definition dflt_dopts : dopts := {| d_asc := true; d_keyonly := false; d_lower := []; d_upper := [] |}.
+
+Lemma f8_legacy_refuted :
+  tier_inv_b s_f8 = true /\
+  scan_ok_b 100 w_f8 [] 2 (sopts_of (plain_opts false false) None)
+            (map item_sitem (txn_list legacy 100 s_f8 2 [] (plain_opts false false) ARewind)) = false /\
+  scan_ok_b 100 w_f8 [] 2 (sopts_of (plain_opts false false) None)
+            (map item_sitem (txn_list current 100 s_f8 2 [] (plain_opts false false) ARewind)) = true.
+Proof. vm_compute. auto. Qed.
+
+Lemma f3_legacy_refuted :
+  tier_inv_b s_f3 = true /\
+  option_map r_val (src_search (sbase (of_string "a")) max_u64 (db_stream legacy s_f3 false PRewind)) = Some (of_string "1") /\
+  option_map r_val (Lsm.get s_f3 (sbase (of_string "a")) max_u64) = Some (of_string "2") /\
+  option_map r_val (src_search (sbase (of_string "a")) max_u64 (db_stream current s_f3 false PRewind)) = Some (of_string "2").
+Proof. vm_compute. auto. Qed.
+
+Lemma f9_reverse_refuted :
+  tier_inv_b s_f9 = true /\
+  scan_ok_b 100 w_f9 [] 2 (sopts_of (plain_opts true false) None)
+            (map item_sitem (txn_list current 100 s_f9 2 [] (plain_opts true false) ARewind)) = false.
+Proof. vm_compute. auto. Qed.
+
+Lemma f10_db_refuted :
+  tier_inv_b s_f9 = true /\
+  scan_ok_b 100 w_f9 [] max_u64 (sopts_of (plain_opts false false) None)
+            (map item_sitem (db_list current 100 s_f9 dflt_dopts ARewind)) = false.
+Proof. vm_compute. auto. Qed.
+
+(** The hypotheses of the forward theorem hold on a non-trivial state. *)
+Definition w_ex : list rec := [mkr "a" 1 "1" 0 1; mkr "b" 1 "2" 0 2; mkr "b" 2 "" 1 3; mkr "ab" 3 "x" 0 4; mkr "a" 3 "y" 0 5].
+Definition s_ex : state :=
+  {| st_mem := [mkr "a" 3 "y" 0 5; mkr "ab" 3 "x" 0 4]; st_memid := 9;
+     st_imms := [(2, [mkr "b" 2 "" 1 3])];
+     st_l0 := [{| t_fid := 1; t_recs := [mkr "a" 1 "1" 0 1; mkr "b" 1 "2" 0 2] |}];
+     st_lvls := []; st_maxfid := 9 |}.
+
+Lemma ex_hyps :
+  iter_inv s_ex /\ content_ok s_ex w_ex /\ seq_functional w_ex /\ (forall w, In w w_ex -> wf_key w = true).
+Proof.
+  assert (Hb : tier_inv_b s_ex = true) by (vm_compute; reflexivity).
+  destruct (tier_inv_b_sound s_ex Hb) as [H1 H2].
+  split; [constructor; assumption|]. split; [split|split].
+  - intros x Hx. vm_compute in Hx |- *. intuition.
+  - intros w Hw. exists w. split; [vm_compute in Hw |- *; intuition|].
+    split; [reflexivity|]. split; [reflexivity | apply geq_refl].
+  - intros x y Hx Hy E. vm_compute in Hx, Hy.
+    repeat (destruct Hx as [<-|Hx]; [repeat (destruct Hy as [<-|Hy]; [first [reflexivity | vm_compute in E; discriminate]|]); contradiction|]).
+    contradiction.
+  - intros w Hw. vm_compute in Hw. repeat (destruct Hw as [<-|Hw]; [reflexivity|]). contradiction.
+Qed.
+
+Lemma ex_listing :
+  map item_sitem (txn_list current 100 s_ex 3 [] (plain_opts false false) ARewind)
+  = [ {| s_key := of_string "a"; s_ver := 3; s_val := of_string "y" |};
+      {| s_key := of_string "ab"; s_ver := 3; s_val := of_string "x" |} ].
+Proof. vm_compute. reflexivity. Qed.
+
+(** The hypotheses of the DB-iterator theorem hold on a state with two sources, a tombstone and prefix-related keys. *)
+Definition w_db : list rec := [mkr "a" max_u64 "1" 0 1; mkr "ab" max_u64 "2" 0 2; mkr "b" max_u64 "" 1 3; mkr "k" 7 "v" 0 4].
+Definition s_db : state :=
+  {| st_mem := [mkr "b" max_u64 "" 1 3; mkr "k" 7 "v" 0 4]; st_memid := 9; st_imms := [];
+     st_l0 := [{| t_fid := 1; t_recs := [mkr "a" max_u64 "1" 0 1; mkr "ab" max_u64 "2" 0 2] |}];
+     st_lvls := []; st_maxfid := 9 |}.
+
+Lemma ex_db_hyps :
+  iter_inv s_db /\ content_ok s_db w_db /\ seq_functional w_db /\
+  (forall w, In w w_db -> wf_key w = true /\ r_ver w <= max_u64) /\ simple_stream (fstream s_db) = true.
+Proof.
+  assert (Hb : tier_inv_b s_db = true) by (vm_compute; reflexivity).
+  destruct (tier_inv_b_sound s_db Hb) as [H1 H2].
+  split; [constructor; assumption|]. split; [split|split; [|split]].
+  - intros x Hx. vm_compute in Hx |- *. intuition.
+  - intros w Hw. exists w. split; [vm_compute in Hw |- *; intuition|].
+    split; [reflexivity|]. split; [reflexivity | apply geq_refl].
+  - intros x y Hx Hy E. vm_compute in Hx, Hy.
+    repeat (destruct Hx as [<-|Hx]; [repeat (destruct Hy as [<-|Hy]; [first [reflexivity | vm_compute in E; discriminate]|]); contradiction|]).
+    contradiction.
+  - intros w Hw. vm_compute in Hw. repeat (destruct Hw as [<-|Hw]; [split; [reflexivity | vm_compute; discriminate]|]). contradiction.
+  - vm_compute. reflexivity.
+Qed.
+
+Lemma ex_rev_hyp : no_repeat (filter (visible max_u64) (fstream s_db)) = true.
+Proof. vm_compute. reflexivity. Qed.
